@@ -654,6 +654,28 @@ func c16Run(c *c16Case, ctx *Ctx) {
 		fmt.Fprintf(w, "R %s ok\n", tag)
 		obs = append(obs, o)
 	}
+	// the wire bytes of the built arrays (compared with the model's ser_array32) and proto.Size
+	wireLine := func(tag string, src proto.Message) {
+		buf, err := proto.Marshal(src)
+		if err != nil {
+			fmt.Fprintf(w, "M %s marshal-error\n", tag)
+			return
+		}
+		fmt.Fprintf(w, "M %s size=%d %s\n", tag, proto.Size(src), c16Digest(buf))
+		ctx.Or.Count("wire:built-array-marshalled")
+		if len(buf) > 0 && len(buf) <= 300 && len(c16WireSeeds) < 200 {
+			c16WireSeeds = append(c16WireSeeds, buf)
+		}
+		if proto.Size(src) != len(buf) {
+			ctx.Or.Violate("C16:wire-size", fmt.Sprintf("proto.Size=%d but Marshal wrote %d bytes", proto.Size(src), len(buf)), replay())
+		}
+	}
+	if tArr != nil {
+		wireLine("t", tArr)
+	}
+	if gArr != nil {
+		wireLine("g", gArr)
+	}
 	if tArr != nil {
 		reload("tt", tArr, true)
 		reload("tg", tArr, false)
@@ -1035,14 +1057,20 @@ func c16GenCase(r *RNG, id string, shape string, t c16Type, big, sample int) *c1
 	return c
 }
 
+// encodings of small built arrays, the seeds of the mutated byte strings
+var c16WireSeeds [][]byte
+
 func init() {
 	register("C16", func(c *Ctx) {
+		c16WireSeeds = nil
 		c.Or.Rule = "cases: (shape x element type) over index sets in [0,2^20): empty, single, dense, holes, sparse, emptywords, boundary (63/64/127/128..), wide; " +
 			"element types u16,u32,u64,i16,i32,i64 (typed + generic array), structs s1{i32,u16}, s2{u8,i64,i16,u32} (type encoder), s3{u16,i32,u8} (hand-written encoder); " +
 			"field values: extremes, random magnitudes, random 64-bit patterns; invalid: equal/swapped/dropped neighbour at first/last/random position, lengths off by +-k; " +
 			"reinit: a second Init (valid or invalid) on the built arrays; every case is evaluated on the built arrays and on 4 marshal/unmarshal reloads (typed->typed, typed->generic, generic->typed, generic->generic); " +
 			"probes: the whole span when span<=1024, else listed indexes, neighbours, word boundaries and a sample, plus out-of-span/negative probes (correspondence only). " +
-			"non-trivial: every case except a valid empty one; distinct by the full case text"
+			"wire: for every built array the bytes of proto.Marshal and proto.Size; messages Array32 given by their fields (all int32/uint32/uint64 extremes, negative int32, BMElts absent/empty/filled, retained unknown fields) marshalled, sized and reloaded; " +
+			"byte strings (fixed corner cases, noise, mutated real encodings: truncated/byte/bit/concatenated, and concatenations of fragments: scalars, packed/unpacked repeated, bytes, sub-message fragments, unknown fields of every wire type incl. nested groups, known numbers with the wrong wire type, tag 0, wire types 6/7, stray/missing end-group, truncated/overlong/non-minimal varints, lengths beyond the end, cut packed payloads) given to proto.Unmarshal: accept/reject, loaded fields incl. XXX_unrecognized, and the re-marshalled bytes. " +
+			"non-trivial: every case except a valid empty one and the empty byte string; distinct by the full case text"
 		cw := c.Cases()
 		emit := func(cs *c16Case, class string) {
 			txt := cs.text()
@@ -1074,6 +1102,13 @@ func init() {
 				}
 				emit(cs, "valid")
 			}
+		}
+		// the example of coq/props/C16.v (ex_idx, ex_vals): its Marshal bytes are quoted there
+		{
+			cs := &c16Case{ID: id(), Shape: "fixed", T: c16Types[0], Idx: []int32{1, 5, 9, 203},
+				Vals: [][]uint64{{12}, {15}, {19}, {120}}}
+			cs.Probes = c16GenProbes(c.R, cs.Idx, 50)
+			emit(cs, "valid")
 		}
 		// bitmap.Of meets the int32 boundary: position MaxInt32
 		for _, t := range []c16Type{c16Types[0], c16Types[6]} {
@@ -1158,6 +1193,8 @@ func init() {
 			cs := c16GenCase(r, id(), "wide", t, big, c.N(60, 300))
 			emit(cs, "valid")
 		}
+		// the wire format: messages given by their fields, and arbitrary byte strings
+		c16WireCases(c, c16WireSeeds)
 	})
 }
 
@@ -1174,4 +1211,608 @@ func c16RunUnjudged(cs *c16Case, c *Ctx) {
 	c.Or = NewOracle()
 	c16Run(cs, c)
 	c.Or = saved
+}
+
+// ---- wire format ---------------------------------------------------------
+// proto.Marshal / proto.Size / proto.Unmarshal of array.Array32 (and its sub-message
+// array.Bits) against the model's ser_array32 / size_array32 / parse_array32
+// (coq/theories/ArrWire.v): byte-for-byte on generated messages, field-for-field
+// (XXX_unrecognized included) and accept/reject on arbitrary byte strings.
+
+// long byte strings are compared by length + FNV-1a 64 (+ the bytes themselves when short)
+func c16Digest(b []byte) string {
+	h := uint64(14695981039346656037)
+	for _, x := range b {
+		h ^= uint64(x)
+		h *= 1099511628211
+	}
+	s := fmt.Sprintf("len=%d fnv=%016x", len(b), h)
+	if len(b) <= 2048 {
+		s += " hex=" + c16Hex(b)
+	}
+	return s
+}
+
+func c16U64s(x []uint64) string {
+	s := make([]string, len(x))
+	for i, v := range x {
+		s[i] = fmt.Sprintf("%d", v)
+	}
+	return strings.Join(s, " ")
+}
+
+func c16BitsFields(b *array.Bits) string {
+	if b == nil {
+		return "-"
+	}
+	wd := make([]string, len(b.Words))
+	for i, v := range b.Words {
+		wd[i] = fmt.Sprintf("%016x", v)
+	}
+	rk := make([]string, len(b.RankIndex))
+	for i, v := range b.RankIndex {
+		rk[i] = fmt.Sprintf("%d", v)
+	}
+	return fmt.Sprintf("{flags=%d n=%d words=[%s] rank=[%s] unk=%s}", b.Flags, b.N,
+		strings.Join(wd, ","), strings.Join(rk, ","), c16Hex(b.XXX_unrecognized))
+}
+
+// every field of the message, the retained unknown fields included
+func c16WireFields(m *array.Array32) string {
+	bm := make([]string, len(m.Bitmaps))
+	for i, v := range m.Bitmaps {
+		bm[i] = fmt.Sprintf("%016x", v)
+	}
+	off := make([]string, len(m.Offsets))
+	for i, v := range m.Offsets {
+		off[i] = fmt.Sprintf("%d", v)
+	}
+	return fmt.Sprintf("cnt=%d bm=[%s] off=[%s] elts=%s flags=%d ew=%d bme=%s unk=%s", m.Cnt,
+		strings.Join(bm, ","), strings.Join(off, ","), c16Hex(m.Elts), m.Flags, m.EltWidth,
+		c16BitsFields(m.BMElts), c16Hex(m.XXX_unrecognized))
+}
+
+// the case text of a message given by its fields
+func c16WireMsgText(id string, m *array.Array32) string {
+	var b strings.Builder
+	fmt.Fprintf(&b, "M %s\n", id)
+	fmt.Fprintf(&b, "wc %d %d %d\n", m.Cnt, m.Flags, m.EltWidth)
+	fmt.Fprintf(&b, "wb %s\n", c16U64s(m.Bitmaps))
+	fmt.Fprintf(&b, "wo %s\n", c16Ints(m.Offsets))
+	fmt.Fprintf(&b, "we %s\n", c16Hex(m.Elts))
+	fmt.Fprintf(&b, "wu %s\n", c16Hex(m.XXX_unrecognized))
+	if m.BMElts == nil {
+		b.WriteString("wm -\n")
+	} else {
+		fmt.Fprintf(&b, "wm %d %d\n", m.BMElts.Flags, m.BMElts.N)
+		fmt.Fprintf(&b, "ww %s\n", c16U64s(m.BMElts.Words))
+		fmt.Fprintf(&b, "wr %s\n", c16Ints(m.BMElts.RankIndex))
+		fmt.Fprintf(&b, "wx %s\n", c16Hex(m.BMElts.XXX_unrecognized))
+	}
+	b.WriteString("Y\n")
+	return b.String()
+}
+
+func c16ErrClass(err error) string {
+	s := err.Error()
+	switch {
+	case strings.Contains(s, "unexpected EOF"):
+		return "eof"
+	case strings.Contains(s, "illegal tag"):
+		return "tag0"
+	case strings.Contains(s, "wire type"), strings.Contains(s, "wiretype"):
+		return "wiretype"
+	case strings.Contains(s, "group"):
+		return "group"
+	case strings.Contains(s, "overflow"):
+		return "overflow"
+	}
+	return "other"
+}
+
+// proto.Unmarshal into a fresh Array32: "ok", "err:<class>" or "PANIC"
+func c16Unmarshal(buf []byte, m *array.Array32) (kind string) {
+	defer func() {
+		if e := recover(); e != nil {
+			kind = "PANIC"
+		}
+	}()
+	if err := proto.Unmarshal(buf, m); err != nil {
+		return "err:" + c16ErrClass(err)
+	}
+	return "ok"
+}
+
+// a message given by its fields: Marshal, Size, and Unmarshal of the bytes just written
+func c16RunWireMsg(id string, m *array.Array32, ctx *Ctx) {
+	w := ctx.Impl()
+	fmt.Fprintf(w, "C %s\n", id)
+	replay := map[string]interface{}{"case": strings.Split(strings.TrimSpace(c16WireMsgText(id, m)), "\n")}
+	before := c16WireFields(m)
+	buf, err := proto.Marshal(m)
+	if err != nil {
+		fmt.Fprintln(w, "M marshal-error")
+		ctx.Or.Violate("C16:wire-marshal", "proto.Marshal failed: "+err.Error(), replay)
+		return
+	}
+	fmt.Fprintf(w, "M size=%d %s\n", proto.Size(m), c16Digest(buf))
+	if proto.Size(m) != len(buf) {
+		ctx.Or.Violate("C16:wire-size", fmt.Sprintf("proto.Size=%d but Marshal wrote %d bytes", proto.Size(m), len(buf)), replay)
+	}
+	var back array.Array32
+	kind := c16Unmarshal(buf, &back)
+	if kind != "ok" {
+		fmt.Fprintf(w, "U %s\n", strings.SplitN(kind, ":", 2)[0])
+		ctx.Or.Count("wire:msg-reload-" + kind)
+		if len(m.XXX_unrecognized) == 0 && (m.BMElts == nil || len(m.BMElts.XXX_unrecognized) == 0) {
+			ctx.Or.Violate("C16:wire-roundtrip", "proto.Unmarshal rejected what proto.Marshal wrote: "+kind, replay)
+		}
+		return
+	}
+	after := c16WireFields(&back)
+	fmt.Fprintf(w, "U ok %s\n", after)
+	// the property: the contents survive serialization (messages without retained unknown fields)
+	if len(m.XXX_unrecognized) == 0 && (m.BMElts == nil || len(m.BMElts.XXX_unrecognized) == 0) {
+		ctx.Or.Count("wire:msg-roundtrip-checked")
+		if before != after {
+			ctx.Or.Violate("C16:wire-roundtrip", "fields changed by Marshal/Unmarshal: "+before+" -> "+after, replay)
+		}
+	}
+}
+
+// an arbitrary byte string: Unmarshal (accept/reject, never a panic), the fields it
+// yields, and what Marshal writes for the loaded message
+func c16RunWireBytes(id string, b []byte, ctx *Ctx) {
+	w := ctx.Impl()
+	fmt.Fprintf(w, "C %s\n", id)
+	var m array.Array32
+	kind := c16Unmarshal(b, &m)
+	ctx.Or.Count("wire:bytes-" + kind)
+	if kind == "PANIC" {
+		fmt.Fprintln(w, "U PANIC")
+		ctx.Or.Violate("C16:wire-panic", "proto.Unmarshal panicked on a byte string", map[string]interface{}{"bytes": c16Hex(b)})
+		return
+	}
+	if kind != "ok" {
+		fmt.Fprintln(w, "U err")
+		return
+	}
+	fmt.Fprintf(w, "U ok %s\n", c16WireFields(&m))
+	out, err := proto.Marshal(&m)
+	if err != nil {
+		fmt.Fprintln(w, "M marshal-error")
+		return
+	}
+	fmt.Fprintf(w, "M size=%d %s\n", proto.Size(&m), c16Digest(out))
+}
+
+// ---- generators for the wire cases ---------------------------------------
+
+func c16AppendVarint(b []byte, x uint64) []byte {
+	for x >= 0x80 {
+		b = append(b, byte(x)|0x80)
+		x >>= 7
+	}
+	return append(b, byte(x))
+}
+
+func c16TagBytes(field uint64, wire int) []byte {
+	return c16AppendVarint(nil, field<<3|uint64(wire))
+}
+
+var c16ExtU64 = []uint64{0, 1, 127, 128, 16383, 16384, 1<<31 - 1, 1 << 31, 1<<32 - 1, 1 << 32, 1<<56 - 1, 1 << 56, 1<<63 - 1, 1 << 63, ^uint64(0) - 1, ^uint64(0)}
+
+func c16GenU64(r *RNG) uint64 {
+	switch r.Intn(3) {
+	case 0:
+		return c16ExtU64[r.Intn(len(c16ExtU64))]
+	case 1:
+		return r.U64() >> uint(r.Intn(64))
+	}
+	return r.U64()
+}
+
+func c16GenI32(r *RNG) int32 {
+	switch r.Intn(4) {
+	case 0:
+		return []int32{0, 1, -1, 127, 128, -128, -129, math.MaxInt32, math.MinInt32, math.MaxInt32 - 1, math.MinInt32 + 1}[r.Intn(11)]
+	case 1:
+		return int32(r.Intn(300))
+	case 2:
+		return int32(uint32(r.U64() >> uint(32+r.Intn(32))))
+	}
+	return int32(uint32(r.U64()))
+}
+
+func c16GenU32(r *RNG) uint32 {
+	switch r.Intn(3) {
+	case 0:
+		return []uint32{0, 1, 127, 128, 1 << 31, math.MaxUint32, math.MaxUint32 - 1}[r.Intn(7)]
+	case 1:
+		return uint32(r.Intn(300))
+	}
+	return uint32(r.U64())
+}
+
+func c16GenBytes(r *RNG, max int) []byte {
+	n := r.Intn(max + 1)
+	b := make([]byte, n)
+	for i := range b {
+		b[i] = byte(r.U64())
+	}
+	return b
+}
+
+func c16Fixed(r *RNG, n int) []byte {
+	b := make([]byte, n)
+	for i := range b {
+		b[i] = byte(r.U64())
+	}
+	return b
+}
+
+// well-formed field with number f and a random wire type among 0,1,2,5,3(group)
+func c16GenFieldAnyWire(r *RNG, f uint64, depth int, wires []int) []byte {
+	wire := wires[r.Intn(len(wires))]
+	switch wire {
+	case 0:
+		return c16AppendVarint(c16TagBytes(f, 0), c16GenU64(r))
+	case 1:
+		return append(c16TagBytes(f, 1), c16Fixed(r, 8)...)
+	case 5:
+		return append(c16TagBytes(f, 5), c16Fixed(r, 4)...)
+	case 2:
+		p := c16GenBytes(r, 12)
+		return append(c16AppendVarint(c16TagBytes(f, 2), uint64(len(p))), p...)
+	}
+	// group: start tag, nested well-formed fields, end tag (the end tag's number is not checked by the reader)
+	b := c16TagBytes(f, 3)
+	if depth < 3 {
+		for i := 0; i < r.Intn(3); i++ {
+			b = append(b, c16GenFieldAnyWire(r, uint64(1+r.Intn(50)), depth+1, []int{0, 1, 2, 5, 3})...)
+		}
+	}
+	g := f
+	if r.Intn(4) == 0 {
+		g = uint64(1 + r.Intn(50))
+	}
+	return append(b, c16TagBytes(g, 4)...)
+}
+
+func c16UnknownNumber(r *RNG, known []uint64) uint64 {
+	for {
+		var f uint64
+		switch r.Intn(4) {
+		case 0:
+			f = uint64(1 + r.Intn(40))
+		case 1:
+			f = uint64(1 + r.Intn(1<<29-1))
+		case 2:
+			f = []uint64{15, 16, 2047, 2048, 1<<29 - 1, 1 << 29, 1<<61 - 1}[r.Intn(7)]
+		default:
+			f = uint64(5 + r.Intn(5))
+		}
+		ok := true
+		for _, k := range known {
+			if k == f {
+				ok = false
+			}
+		}
+		if ok {
+			return f
+		}
+	}
+}
+
+var c16KnownArray = []uint64{1, 2, 3, 4, 10, 20, 30}
+var c16KnownBits = []uint64{1, 10, 20, 30}
+
+func c16GenBitsMsg(r *RNG) *array.Bits {
+	b := &array.Bits{}
+	if r.Intn(5) == 0 {
+		return b // present but empty: tag + length 0
+	}
+	if r.Bool() {
+		b.Flags = c16GenU32(r)
+	}
+	if r.Bool() {
+		b.N = c16GenI32(r)
+	}
+	for i := 0; i < r.Intn(5); i++ {
+		b.Words = append(b.Words, c16GenU64(r))
+	}
+	for i := 0; i < r.Intn(5); i++ {
+		b.RankIndex = append(b.RankIndex, c16GenI32(r))
+	}
+	if r.Intn(6) == 0 {
+		b.XXX_unrecognized = c16GenFieldAnyWire(r, c16UnknownNumber(r, c16KnownBits), 0, []int{0, 1, 2, 5, 3})
+	}
+	return b
+}
+
+func c16GenWireMsg(r *RNG) *array.Array32 {
+	m := &array.Array32{}
+	if r.Intn(12) == 0 {
+		return m
+	}
+	if r.Intn(4) != 0 {
+		m.Cnt = c16GenI32(r)
+	}
+	for i := 0; i < r.Intn(7); i++ {
+		m.Bitmaps = append(m.Bitmaps, c16GenU64(r))
+	}
+	for i := 0; i < r.Intn(7); i++ {
+		m.Offsets = append(m.Offsets, c16GenI32(r))
+	}
+	if r.Bool() {
+		m.Elts = c16GenBytes(r, 24)
+		if r.Intn(8) == 0 {
+			m.Elts = c16GenBytes(r, 400)
+		}
+	}
+	if r.Intn(3) == 0 {
+		m.Flags = c16GenU32(r)
+	}
+	if r.Intn(3) == 0 {
+		m.EltWidth = c16GenI32(r)
+	}
+	if r.Intn(3) == 0 {
+		m.BMElts = c16GenBitsMsg(r)
+	}
+	if r.Intn(6) == 0 {
+		for i := 0; i < 1+r.Intn(2); i++ {
+			m.XXX_unrecognized = append(m.XXX_unrecognized, c16GenFieldAnyWire(r, c16UnknownNumber(r, c16KnownArray), 0, []int{0, 1, 2, 5, 3})...)
+		}
+	}
+	return m
+}
+
+func c16Packed(r *RNG, f uint64, n int, i32 bool) []byte {
+	p := []byte{}
+	for i := 0; i < n; i++ {
+		if i32 {
+			p = c16AppendVarint(p, uint64(int64(c16GenI32(r))))
+		} else {
+			p = c16AppendVarint(p, c16GenU64(r))
+		}
+	}
+	return append(c16AppendVarint(c16TagBytes(f, 2), uint64(len(p))), p...)
+}
+
+// one piece of a byte string; class says what it is ("bad-..." pieces are malformed on their own)
+func c16GenFragment(r *RNG, forBits bool, depth int) ([]byte, string) {
+	scalars := []uint64{1, 10, 20}
+	reps := []uint64{2, 3}
+	known := c16KnownArray
+	if forBits {
+		scalars = []uint64{1, 10}
+		reps = []uint64{20, 30}
+		known = c16KnownBits
+	}
+	switch r.Intn(16) {
+	case 0, 1: // scalar, any 64-bit value (the reader keeps the low 32 bits)
+		f := scalars[r.Intn(len(scalars))]
+		return c16AppendVarint(c16TagBytes(f, 0), c16GenU64(r)), "scalar"
+	case 2: // packed repeated
+		f := reps[r.Intn(len(reps))]
+		return c16Packed(r, f, r.Intn(5), r.Bool()), "packed"
+	case 3: // one unpacked element of a repeated field
+		f := reps[r.Intn(len(reps))]
+		return c16AppendVarint(c16TagBytes(f, 0), c16GenU64(r)), "unpacked"
+	case 4: // bytes Elts
+		if forBits {
+			return c16Packed(r, 20, 1+r.Intn(3), false), "packed"
+		}
+		p := c16GenBytes(r, 10)
+		return append(c16AppendVarint(c16TagBytes(4, 2), uint64(len(p))), p...), "bytes"
+	case 5, 6: // sub-message BMElts made of Bits fragments (merged into an earlier one)
+		if forBits || depth > 0 {
+			return c16GenFieldAnyWire(r, c16UnknownNumber(r, known), 0, []int{0, 1, 2, 5, 3}), "unknown"
+		}
+		p := []byte{}
+		cls := "submsg"
+		for i := 0; i < r.Intn(4); i++ {
+			q, c := c16GenFragment(r, true, depth+1)
+			p = append(p, q...)
+			if strings.HasPrefix(c, "bad") {
+				cls = "bad-submsg"
+			}
+		}
+		return append(c16AppendVarint(c16TagBytes(30, 2), uint64(len(p))), p...), cls
+	case 7, 8: // unknown field number, any wire type, groups included
+		return c16GenFieldAnyWire(r, c16UnknownNumber(r, known), 0, []int{0, 1, 2, 5, 3}), "unknown"
+	case 9: // known number, unexpected wire type: kept as unknown
+		f := known[r.Intn(len(known))]
+		isRep := f == reps[0] || f == reps[1]
+		isLen := !forBits && (f == 4 || f == 30)
+		wires := []int{1, 5, 3}
+		if !isRep && !isLen {
+			wires = append(wires, 2)
+		}
+		if isLen {
+			wires = append(wires, 0)
+		}
+		return c16GenFieldAnyWire(r, f, 0, wires), "wrongwire"
+	case 10: // illegal: tag 0, wire types 6 and 7, a stray end-group
+		switch r.Intn(4) {
+		case 0:
+			return append([]byte{byte(r.Intn(8))}, c16GenBytes(r, 3)...), "bad-tag0"
+		case 1:
+			return append(c16TagBytes(uint64(1+r.Intn(40)), 6), c16GenBytes(r, 3)...), "bad-wire6"
+		case 2:
+			return append(c16TagBytes(uint64(1+r.Intn(40)), 7), c16GenBytes(r, 3)...), "bad-wire7"
+		}
+		return c16TagBytes(uint64(1+r.Intn(40)), 4), "bad-endgroup"
+	case 11: // varints: truncated, overlong, 10th byte >= 2; or merely non-minimal (legal)
+		f := scalars[r.Intn(len(scalars))]
+		t := c16TagBytes(f, 0)
+		switch r.Intn(5) {
+		case 0:
+			n := 1 + r.Intn(9)
+			for i := 0; i < n; i++ {
+				t = append(t, 0x80|byte(r.U64()))
+			}
+			return t, "bad-varint-truncated"
+		case 1:
+			for i := 0; i < 10+r.Intn(3); i++ {
+				t = append(t, 0xff)
+			}
+			return append(t, 0x01), "bad-varint-overlong"
+		case 2:
+			for i := 0; i < 9; i++ {
+				t = append(t, 0x80|byte(r.U64()))
+			}
+			return append(t, byte(2+r.Intn(126))), "bad-varint-10th"
+		case 3:
+			for i := 0; i < 9; i++ {
+				t = append(t, 0x80|byte(r.U64()))
+			}
+			return append(t, byte(r.Intn(2))), "varint-10-bytes"
+		}
+		n := 1 + r.Intn(8)
+		for i := 0; i < n; i++ {
+			t = append(t, 0x80)
+		}
+		return append(t, 0x00), "varint-nonminimal"
+	case 12: // length prefix beyond the end / enormous
+		f := []uint64{2, 3, 4, 30, 7}[r.Intn(5)]
+		if forBits {
+			f = []uint64{20, 30, 7}[r.Intn(3)]
+		}
+		t := c16TagBytes(f, 2)
+		switch r.Intn(3) {
+		case 0:
+			t = c16AppendVarint(t, uint64(1+r.Intn(40)))
+			return t, "bad-length"
+		case 1:
+			return c16AppendVarint(t, []uint64{1 << 31, 1 << 32, 1 << 63, ^uint64(0)}[r.Intn(4)]), "bad-length-huge"
+		}
+		p := c16GenBytes(r, 6)
+		return append(c16AppendVarint(t, uint64(len(p)+1+r.Intn(3))), p...), "bad-length"
+	case 13: // packed payload whose last varint is cut
+		f := reps[r.Intn(len(reps))]
+		p := []byte{}
+		for i := 0; i < r.Intn(3); i++ {
+			p = c16AppendVarint(p, c16GenU64(r))
+		}
+		p = append(p, 0x80|byte(r.U64()))
+		return append(c16AppendVarint(c16TagBytes(f, 2), uint64(len(p))), p...), "bad-packed"
+	case 14: // a tag written non-minimally (legal), or a tag above 2^32
+		f := known[r.Intn(len(known))]
+		x := f<<3 | 0
+		t := []byte{}
+		for i := 0; i < 1+r.Intn(3); i++ {
+			t = append(t, byte(x)|0x80)
+			x >>= 7
+		}
+		t = append(t, byte(x))
+		return c16AppendVarint(t, c16GenU64(r)), "tag-nonminimal"
+	}
+	// unterminated group
+	b := c16TagBytes(c16UnknownNumber(r, known), 3)
+	for i := 0; i < r.Intn(3); i++ {
+		b = append(b, c16GenFieldAnyWire(r, uint64(1+r.Intn(50)), 1, []int{0, 1, 2, 5})...)
+	}
+	return b, "bad-group-open"
+}
+
+func c16GenWireBytes(r *RNG, seedMsgs [][]byte) ([]byte, string) {
+	switch r.Intn(10) {
+	case 0: // noise
+		return c16GenBytes(r, 24), "random"
+	case 1, 2: // a mutated real encoding
+		if len(seedMsgs) == 0 {
+			return c16GenBytes(r, 8), "random"
+		}
+		b := append([]byte{}, seedMsgs[r.Intn(len(seedMsgs))]...)
+		if len(b) == 0 {
+			return b, "mutated:empty"
+		}
+		switch r.Intn(4) {
+		case 0:
+			return b[:r.Intn(len(b))], "mutated:truncated"
+		case 1:
+			b[r.Intn(len(b))] = byte(r.U64())
+			return b, "mutated:byte"
+		case 2:
+			b[r.Intn(len(b))] ^= 1 << uint(r.Intn(8))
+			return b, "mutated:bit"
+		}
+		// two encodings concatenated: the reader merges them
+		return append(b, seedMsgs[r.Intn(len(seedMsgs))]...), "mutated:concat"
+	}
+	b := []byte{}
+	cls := "fragments"
+	for i := 0; i < r.Intn(6); i++ {
+		q, c := c16GenFragment(r, false, 0)
+		b = append(b, q...)
+		if strings.HasPrefix(c, "bad") {
+			cls = "fragments:with-bad"
+		}
+	}
+	if len(b) > 0 && r.Intn(6) == 0 {
+		b = b[:r.Intn(len(b))]
+		cls = "fragments:truncated"
+	}
+	return b, cls
+}
+
+// the wire cases of one run
+func c16WireCases(c *Ctx, seedMsgs [][]byte) {
+	cw := c.Cases()
+	nm := c.N(250, 3000)
+	for i := 0; i < nm; i++ {
+		r := c.R.Fork()
+		m := c16GenWireMsg(r)
+		if i == 0 {
+			// the example of coq/props/C16.v (ex_wire_msg): its Marshal bytes are quoted there
+			m = &array.Array32{Cnt: 3, Bitmaps: []uint64{0x8000000000000001, 0}, Offsets: []int32{0, -1},
+				Elts: []byte("abc"), Flags: 1 << 31, EltWidth: -2,
+				BMElts: &array.Bits{Flags: 1, N: 300, Words: []uint64{255}, RankIndex: []int32{0, 7}}}
+		}
+		id := fmt.Sprintf("m%d", i+1)
+		txt := c16WireMsgText(id, m)
+		cw.WriteString(txt)
+		if b, err := proto.Marshal(m); err == nil && len(b) > 0 && len(seedMsgs) < 400 {
+			seedMsgs = append(seedMsgs, b)
+		}
+		c16RunWireMsg(id, m, c)
+		c.Or.Case(txt, true)
+		c.Or.Count("class:wire-message")
+		if m.BMElts != nil {
+			c.Or.Count("wire:msg-with-BMElts")
+		}
+		if len(m.XXX_unrecognized) > 0 {
+			c.Or.Count("wire:msg-with-unknown-fields")
+		}
+	}
+	// fixed byte strings first, then generated ones
+	fixed := [][]byte{
+		{}, {0x00}, {0x08}, {0x08, 0x00}, {0x08, 0x80}, {0x0a, 0x00}, {0x12, 0x00}, {0x1a, 0x01, 0x80},
+		{0xf2, 0x01, 0x00}, {0xf2, 0x01, 0x02, 0x08, 0x05}, {0xf2, 0x01, 0x01, 0x08},
+		{0xf2, 0x01, 0x02, 0x08, 0x05, 0xf2, 0x01, 0x02, 0x50, 0x07}, // two BMElts fragments: merged
+		{0x08, 0x01, 0x08, 0x02}, {0x22, 0x01, 0x41, 0x22, 0x00},     // last scalar / last bytes wins
+		{0x10, 0x05, 0x12, 0x02, 0x06, 0x07, 0x10, 0x08}, // unpacked + packed + unpacked Bitmaps
+		{0x3b, 0x08, 0x01, 0x3c}, {0x3b, 0x3b, 0x3c, 0x3c}, {0x3b, 0x3c, 0x3c}, {0x3c},
+		{0x08, 0xff, 0xff, 0xff, 0xff, 0xff, 0xff, 0xff, 0xff, 0xff, 0x01},
+		{0x08, 0xff, 0xff, 0xff, 0xff, 0xff, 0xff, 0xff, 0xff, 0xff, 0x02},
+		{0x09, 1, 2, 3, 4, 5, 6, 7, 8}, {0x09, 1, 2, 3, 4, 5, 6, 7}, {0x0d, 1, 2, 3, 4}, {0x0d, 1, 2, 3},
+	}
+	nb := c.N(700, 10000)
+	for i := 0; i < len(fixed)+nb; i++ {
+		var b []byte
+		cls := "fixed"
+		if i < len(fixed) {
+			b = fixed[i]
+		} else {
+			b, cls = c16GenWireBytes(c.R.Fork(), seedMsgs)
+		}
+		id := fmt.Sprintf("x%d", i+1)
+		txt := fmt.Sprintf("X %s %s\n", id, c16Hex(b))
+		cw.WriteString(txt)
+		c16RunWireBytes(id, b, c)
+		c.Or.Case("X "+c16Hex(b), len(b) > 0)
+		c.Or.Count("class:wire-bytes")
+		c.Or.Count("wirebytes:" + cls)
+	}
 }
